@@ -89,6 +89,12 @@ Proof.
   rewrite <- Ha, <- Hb. ring.
 Qed.
 
+Lemma some_triple_inj (a b c a' b' c' : Z) : Some (a, b, c) = Some (a', b', c') -> a = a' /\ b = b' /\ c = c'.
+Proof. intros H. injection H. auto. Qed.
+
+Lemma neg_lincomb_eq si m r d : eqn (- si * m + - si * r * d) (- (si * m + si * r * d)).
+Proof. apply eqn_refl'. ring. Qed.
+
 (* what a successful Signature.Sign computed *)
 Lemma sign_inv k m nonce r s v :
   sign k m nonce = Some (r, s, v) ->
@@ -100,23 +106,26 @@ Lemma sign_inv k m nonce r s v :
     ((halfOrder < s0 /\ s = n - s0 /\ v = (if Z.odd v0 then v0 - 1 else v0 + 1)) \/
      (s0 <= halfOrder /\ s = s0 /\ v = v0)).
 Proof.
-  unfold sign. destruct (smulx nonce G) as [|rx ry]; [discriminate|].
+  unfold sign. destruct (smulx nonce G) as [|rx ry] eqn:ER; [discriminate|].
   destruct (rx =? 0) eqn:E0; [discriminate|]. apply Z.eqb_neq in E0.
   destruct (modinv nonce n) as [ki|]; [|discriminate].
   cbv zeta.
   destruct ((ki * ((rx mod n * k + m) mod n)) mod n =? 0) eqn:Es; [discriminate|].
-  destruct (halfOrder <? (ki * ((rx mod n * k + m) mod n)) mod n) eqn:Eh; intros E; injection E as <- <- <-;
-    exists rx, ry, ki; repeat split; try lia.
-  - left. repeat split; lia.
-  - right. repeat split; lia.
+  apply Z.eqb_neq in Es.
+  destruct (halfOrder <? (ki * ((rx mod n * k + m) mod n)) mod n) eqn:Eh; intros E; apply some_triple_inj in E as (<- & <- & <-);
+    exists rx, ry, ki; (split; [reflexivity|]); (split; [exact E0|]); (split; [reflexivity|]); (split; [reflexivity|]);
+    (split; [exact Es|]).
+  - left. apply Z.ltb_lt in Eh. split; [exact Eh|]. split; reflexivity.
+  - right. apply Z.ltb_ge in Eh. split; [exact Eh|]. split; reflexivity.
 Qed.
+
+Lemma neg_mod_small m y : 0 < y < m -> (- y) mod m = m - y.
+Proof. intros H. symmetry. apply (Z.mod_unique _ _ (-1)); lia. Qed.
 
 Lemma fneg_parity y : 0 < y < p -> Z.odd (fneg y) = negb (Z.odd y).
 Proof.
-  intros Hy. unfold fneg.
-  replace ((- y) mod p) with (p - y).
-  - rewrite Z.odd_sub. change (Z.odd p) with true. reflexivity.
-  - symmetry. apply (Z.mod_unique _ _ (-1)); lia.
+  intros Hy. unfold fneg. rewrite neg_mod_small by exact Hy.
+  rewrite Z.odd_sub. change (Z.odd p) with true. reflexivity.
 Qed.
 
 Section GroupLaw.
@@ -126,6 +135,7 @@ Section GroupLaw.
     on_curve P = true -> on_curve Q = true -> on_curve R = true ->
     padd (padd P Q) R = padd P (padd Q R).
   Hypothesis order_G : smul n G = Inf.
+  Hypothesis sqrt_ok : forall c y, in_field y = true -> fmul y y = c -> fmul (fsqrt c) (fsqrt c) = c.
 
   Add Field FpG : (Fp_field prime_p) (setoid feq_equiv Fp_ext, morphism Fp_morph, constants [Zcst]).
 
@@ -278,5 +288,148 @@ Section GroupLaw.
   Lemma smulG_nonzero a : 0 < a < n -> smul a G <> Inf.
   Proof.
     intros Ha H. apply smulG_Inf in H; [|lia]. unfold eqn in H. rewrite Z.mod_small, Zmod_0_l in H; lia.
+  Qed.
+  (* ---- ECDSA *)
+  Lemma smulxG k : smulx k G = smul k G.
+  Proof. apply (smulx_correct prime_p), G_on_curve. Qed.
+
+  Lemma modinv_n a : a mod n <> 0 -> exists x, modinv a n = Some x /\ eqn (x * a) 1 /\ 0 <= x < n.
+  Proof.
+    intros Ha. destruct (modinv_prime a n prime_n n_lt_256 Ha) as (x & Hx & Hm & Hr).
+    exists x. split; [exact Hx|]. split; [|exact Hr]. unfold eqn. rewrite Z.mul_comm, Hm. reflexivity.
+  Qed.
+
+  Lemma modinv_n_sound a x : modinv a n = Some x -> eqn (x * a) 1 /\ 0 <= x < n.
+  Proof.
+    intros H. apply modinv_sound in H; [|exact n_gt1]. destruct H as [Hm Hr].
+    split; [|exact Hr]. unfold eqn. rewrite Z.mul_comm, Hm. reflexivity.
+  Qed.
+
+  Lemma mod_n_nonneg a : 0 <= a mod n < n.
+  Proof. apply Z.mod_pos_bound. reflexivity. Qed.
+
+  (* a signature produced by Signature.Sign verifies under the signer's public key *)
+  Theorem verify_sign k m nonce r s v :
+    0 <= k -> 0 <= m -> 0 <= nonce ->
+    sign k m nonce = Some (r, s, v) ->
+    ecdsa_verify (smul k G) m r s = true.
+  Proof.
+    intros Hk Hm Hnonce Hs.
+    pose proof (sign_ranges _ _ _ _ _ _ Hs) as (Rr & Rs & Rv).
+    apply sign_inv in Hs as (rx & ry & ki & ER & Hrx & Hki & Hr & H).
+    cbv zeta in H. destruct H as (Hs0 & Hcase).
+    rewrite smulxG in ER.
+    apply modinv_n_sound in Hki as [Eki Rki].
+    set (s0 := (ki * ((r * k + m) mod n)) mod n) in *.
+    assert (Es0 : eqn s0 (ki * (r * k + m))).
+    { unfold s0. rewrite eqn_mod. apply mul_eqn; [reflexivity|apply eqn_mod]. }
+    pose proof n_half as Hn.
+    assert (Hsn : s mod n <> 0) by (rewrite Z.mod_small; lia).
+    destruct (modinv_n s Hsn) as (si & Hsi & Esi & Rsi).
+    unfold ecdsa_verify. rewrite Hsi.
+    pose proof (mod_n_nonneg (si * m)) as R1. pose proof (mod_n_nonneg (si * r)) as R2.
+    set (u1 := (si * m) mod n) in *. set (u2 := (si * r) mod n) in *.
+    assert (OQ : on_curve (smul k G) = true) by (apply sclosed, G_on_curve).
+    rewrite (lincomb_correct prime_p) by (exact G_on_curve || exact OQ).
+    rewrite <- smul_mul by (lia || exact G_on_curve).
+    rewrite <- smul_add by (try exact G_on_curve; nia).
+    assert (Eu : eqn (u1 + u2 * k) (si * m + si * r * k)).
+    { unfold u1, u2. rewrite !eqn_mod. reflexivity. }
+    destruct Hcase as [(Hh & Es & _)|(Hh & Es & _)].
+    - (* s was negated *)
+      assert (E : eqn (u1 + u2 * k) (- nonce)).
+      { rewrite Eu. apply (scalar_verify_neg ki nonce r k m s si); [exact Eki| |exact Esi].
+        rewrite Es, <- Es0. unfold eqn. rewrite <- (Z.sub_0_l s0), Zminus_mod, (Zminus_mod 0 s0). reflexivity. }
+      rewrite <- (smulG_mod (u1 + u2 * k)) by nia.
+      unfold eqn in E. rewrite E. rewrite smulG_neg by exact Hnonce. rewrite ER. cbn [pneg].
+      rewrite Hr. apply Z.eqb_refl.
+    - assert (E : eqn (u1 + u2 * k) nonce).
+      { rewrite Eu. apply (scalar_verify_pos ki nonce r k m s si); [exact Eki| |exact Esi].
+        rewrite Es. exact Es0. }
+      rewrite (smulG_eqn _ nonce) by (nia || exact Hnonce || exact E).
+      rewrite ER. rewrite Hr. apply Z.eqb_refl.
+  Qed.
+  (* a signature stays valid when s is replaced by n - s (the malleation C10 is about) *)
+  Theorem negated_sig_verifies d m r s :
+    0 <= d -> 0 < s < n ->
+    ecdsa_verify (smul d G) m r s = true -> ecdsa_verify (smul d G) m r (n - s) = true.
+  Proof.
+    intros Hd Hs H. unfold ecdsa_verify in *.
+    destruct (modinv s n) as [si|] eqn:Hsi; [|discriminate H].
+    apply modinv_n_sound in Hsi as [Esi Rsi].
+    assert (Hns : (n - s) mod n <> 0) by (rewrite Z.mod_small; lia).
+    destruct (modinv_n (n - s) Hns) as (si' & Hsi' & Esi' & Rsi'). rewrite Hsi'.
+    pose proof (inverse_neg s si si' Esi Esi') as Eneg.
+    assert (OQ : on_curve (smul d G) = true) by (apply sclosed, G_on_curve).
+    rewrite (lincomb_correct prime_p) in * by (exact G_on_curve || exact OQ).
+    pose proof (mod_n_nonneg (si * m)) as R1. pose proof (mod_n_nonneg (si * r)) as R2.
+    pose proof (mod_n_nonneg (si' * m)) as R1'. pose proof (mod_n_nonneg (si' * r)) as R2'.
+    rewrite <- !smul_mul in * by (lia || exact G_on_curve).
+    rewrite <- smul_add in H by (try exact G_on_curve; nia).
+    rewrite <- smul_add by (try exact G_on_curve; nia).
+    assert (E : eqn ((si' * m) mod n + (si' * r) mod n * d) (- ((si * m) mod n + (si * r) mod n * d))).
+    { rewrite !eqn_mod, Eneg. apply neg_lincomb_eq. }
+    rewrite <- (smulG_mod ((si' * m) mod n + (si' * r) mod n * d)) by nia.
+    unfold eqn in E. rewrite E. rewrite smulG_neg by nia.
+    destruct (smul ((si * m) mod n + (si * r) mod n * d) G) as [|x y]; [discriminate H|].
+    cbn [pneg]. exact H.
+  Qed.
+
+  (* both parties of ECDH derive the same point *)
+  Theorem ecdh_sym_points a b : 0 <= a -> 0 <= b -> smulx a (smulx b G) = smulx b (smulx a G).
+  Proof.
+    intros Ha Hb. rewrite !smulxG. rewrite !(smulx_correct prime_p) by (apply sclosed, G_on_curve).
+    rewrite <- !smul_mul by (assumption || exact G_on_curve). f_equal. apply Z.mul_comm.
+  Qed.
+
+  (* ---- decompression *)
+  Lemma lift_x_complete x y : on_curve (Aff x y) = true -> lift_x (Z.odd y) x = Some (Aff x y).
+  Proof.
+    intros O. pose proof O as O'. apply on_curve_inv in O as (Fx & Fy & Cv).
+    unfold lift_x. rewrite Fx.
+    assert (Ec : fmul y y = curve_rhs x).
+    { unfold curve_rhs. apply feq_eq; [apply fmul_range|apply fadd_range|exact Cv]. }
+    pose proof (sqrt_ok (curve_rhs x) y Fy Ec) as Hs.
+    set (ys := fsqrt (curve_rhs x)) in *.
+    assert (Fys : in_field ys = true) by apply fsqrt_range.
+    rewrite Hs, Z.eqb_refl.
+    assert (Sq : feq (fmul ys ys) (fmul y y)) by (rewrite Hs, Ec; reflexivity).
+    apply (fsquare_eq prime_p) in Sq. destruct Sq as [Sq|Sq].
+    - assert (E : ys = y) by (apply feq_eq; assumption). rewrite E.
+      rewrite eqb_reflx. rewrite eqb_reflx. reflexivity.
+    - assert (E : ys = fneg y) by (apply feq_eq; [exact Fys|apply fneg_range|exact Sq]).
+      destruct (Z.eq_dec y 0) as [Y0|Y0].
+      + subst y. change (fneg 0) with 0 in E. rewrite E. rewrite eqb_reflx. rewrite eqb_reflx. reflexivity.
+      + assert (Hy : 0 < y < p) by (unfold in_field in Fy; lia).
+        rewrite E. rewrite fneg_parity by exact Hy.
+        assert (Eb : Bool.eqb (negb (Z.odd y)) (Z.odd y) = false) by (destruct (Z.odd y); reflexivity).
+        rewrite Eb.
+        assert (En : fneg (fneg y) = y) by (apply feq_eq; [apply fneg_range|exact Fy|ring]).
+        rewrite En, eqb_reflx. reflexivity.
+  Qed.
+
+  Lemma compress_parse P bs : on_curve P = true -> compress P = Some bs -> parse_pubkey bs = inl P.
+  Proof.
+    destruct P as [|x y]; [discriminate|]. intros O. cbn [compress]. intros E. injection E as <-.
+    pose proof (lift_x_complete x y O) as HL. apply on_curve_inv in O as (Fx & Fy & _).
+    unfold parse_pubkey. rewrite be_bytes_length. cbn [Nat.eqb negb].
+    assert (Hx : 0 <= x < 256 ^ Z.of_nat 32).
+    { unfold in_field in Fx. pose proof p_lt_256. change (256 ^ Z.of_nat 32) with (2 ^ 256). lia. }
+    rewrite be_val_be_bytes by exact Hx. rewrite Fx. cbn [negb].
+    destruct (Z.odd y) eqn:Eo; cbn [Z.eqb orb negb Pos.eqb]; rewrite HL; reflexivity.
+  Qed.
+
+  (* byte level: cipher.ECDH(pubB, secA) = cipher.ECDH(pubA, secB) *)
+  Theorem ecdh_sym a b pa pb :
+    pubkey_of_seckey a = Some pa -> pubkey_of_seckey b = Some pb -> ecdh pb a = ecdh pa b.
+  Proof.
+    unfold pubkey_of_seckey, ecdh.
+    destruct (seckey_valid a) eqn:Va; [|discriminate]. destruct (seckey_valid b) eqn:Vb; [|discriminate].
+    apply seckey_valid_iff in Va. apply seckey_valid_iff in Vb.
+    intros Ea Eb. cbn [negb].
+    assert (Oa : on_curve (smulx a G) = true) by (rewrite smulxG; apply sclosed, G_on_curve).
+    assert (Ob : on_curve (smulx b G) = true) by (rewrite smulxG; apply sclosed, G_on_curve).
+    rewrite (compress_parse _ _ Oa Ea), (compress_parse _ _ Ob Eb).
+    rewrite ecdh_sym_points by lia. reflexivity.
   Qed.
 End GroupLaw.
